@@ -16,9 +16,9 @@ checks = {
              text='Destination modes x -skip-ensure over-sampled; in-place output never imports itself, other-package output imports the source package exactly when needed.', ref='§3 C10'),
  'C11': dict(engine='static', technique='runtime monitoring: import block of the emitted file vs packages its qualified identifiers resolve to (go/types Uses), alias-collision heavy corpus', cat='exploration',
              text='Exact/unique/canonical import set, sync iff a method exists, valid unique qualifiers, source alias kept under a conservative no-conflict premise.', ref='§3 C11'),
- 'C12': dict(engine='static', technique='runtime monitoring: AST + go/types resolution oracle on every generated method (distinct valid parameter identifiers, no capture of receiver/builtins/qualifiers/types, distinct record fields)', cat='exploration',
+ 'C12': dict(engine='static', technique='runtime monitoring: AST + go/types resolution oracle on every generated method (distinct valid parameter identifiers, no capture of receiver/builtins/qualifiers/types, distinct record fields); exhaustive reserved-word/numbered/derived matrices', cat='exploration',
              text='Collision-heavy naming corpus; capture is detected through identifier resolution, not through a hard-coded list of moq locals.', ref='§3 C12'),
- 'C13': dict(engine='static', technique='runtime monitoring: independent re-implementation of the export rule and the type-derived naming rule compared with emitted parameter and record-field names', cat='exploration',
+ 'C13': dict(engine='static', technique='runtime monitoring: independent re-implementation of the export rule and the type-derived naming rule compared with emitted parameter and record-field names; collision premise decided by a replayed timeline of package registrations; exhaustive initialism/derived/numbered/stale matrices', cat='exploration',
              text='Record field = exported form of the parameter name; user names kept and derived names asserted only under a conservative collision-free premise.', ref='§3 C13'),
  'C20': dict(engine='static', technique='runtime monitoring: top-level declarations of joint requests and go/types comparison of each mock with its solo generation', cat='exploration',
              text='Multi-interface requests (2-4 interfaces, random order, aliases): mock names/order and per-mock fields, record layouts and method signatures equal the solo generation.', ref='§3 C20'),
